@@ -228,7 +228,54 @@ def glue_run():
     return {"lines": int(m.group(1)) if m else 0, "differences": len(diffs), "hits": hits, "sample": out.split("\n")[:0]}
 
 
+def asan_second_opinion(tier, seed):
+    """thorough tier only: the implementation rebuilt with AddressSanitizer, quarantine off (real frees),
+    on the corpus and a sample of the random streams; every history the model says is fault-free must
+    run without a sanitizer report (C02: the hooks' verdict is not the only witness)"""
+    hd = P.HARNESS_DIR
+    env = P.env_offline()
+    env["RUSTFLAGS"] = "-Zsanitizer=address --cfg cactusref_verif"
+    env["CARGO_TARGET_DIR"] = os.path.join(hd, "target", "asan")
+    p = subprocess.run("cargo +nightly build --offline --target x86_64-unknown-linux-gnu", shell=True, cwd=hd,
+                       env=env, stdout=subprocess.PIPE, stderr=subprocess.STDOUT, timeout=1800)
+    binp = os.path.join(hd, "target", "asan", "x86_64-unknown-linux-gnu", "debug", "crharness")
+    if p.returncode != 0 or not os.path.exists(binp):
+        return {"built": False, "log": p.stdout.decode(errors="replace")[-1500:], "histories": 0, "hits": [], "n_hits": 0}
+    lines = [l for l in S.corpus_lines() if "|A|" in l]
+    for name in ("rand_cws", "rand_cwk", "rand_cwa", "rand_cwsp"):
+        lines += _lines_of(name, "quick", seed)[:1500]
+    os.environ["ASAN_OPTIONS"] = "detect_leaks=0:abort_on_error=1:handle_abort=0"
+    try:
+        res = P.differential(lines, harness=binp, noquarantine=True)
+    finally:
+        os.environ.pop("ASAN_OPTIONS", None)
+    hits = []
+    crashed = 0
+    for hid, r in res.items():
+        if r["impl"].get("crash"):
+            crashed += 1
+        d = r["diff"]
+        if d and "kind" in d["fields"] and r["halt"] is None:
+            ex = {}
+            for ln in r["impl"]["lines"]:
+                ex = P.parse_line(ln)["extra"] or ex
+            if ex.get("disc", "1") == "1" and ex.get("d4", "0") == "0" and ex.get("esc", "0") == "0":
+                hits.append({"type": "oracle", "hid": hid, "line": r["line"], "idx": d["idx"],
+                             "oracle": "C02:sanitizer-or-crash-on-fault-free-history:" + str(d["impl"])[:60].replace(" ", "_"),
+                             "disc": "1", "d4": "0", "shrinkable": False})
+    return {"built": True, "histories": len(lines), "implementation_crashes_or_reports": crashed,
+            "hits": hits[:20], "n_hits": len(hits)}
+
+
 def extra_checks(pid, cfg, tier, seed):
+    if pid == "C02" and tier == "thorough":
+        r = _cached("asan-%s" % seed, lambda: asan_second_opinion(tier, seed))
+        hits = r["hits"]
+        if not r.get("built"):
+            hits = [{"type": "oracle", "hid": "asan", "line": "cargo +nightly build (ASan)", "idx": 0,
+                     "oracle": "C02:asan-build-failed", "disc": "1", "d4": "0", "shrinkable": False}]
+        return {"oracle_hits": hits, "evaluations": r["histories"], "distinct_nontrivial": 0,
+                "evidence": {"asan_second_opinion": {k: r.get(k) for k in ("built", "histories", "implementation_crashes_or_reports", "n_hits")}}}
     if pid == "C07":
         r = _cached("c07-%s-%s" % (tier, seed), lambda: c07_std(tier, seed))
         g = _cached("glue", glue_run)
